@@ -62,6 +62,7 @@ def libm_fn(name):
 
 REF_ENV = {n: libm_fn(n) for n in TABLE}
 REF_ENV["nan"] = lambda tag: float("nan")
+REF_ENV["vmhalf"] = lambda x: x * 0.5
 
 
 def documented_names():
@@ -152,7 +153,7 @@ def post(outs, events):
             if not j.events:
                 continue
             er = j.events[0]
-            r = classify_event(c.text, events[er.event], er, extra_env=REF_ENV, tol=1e-14)
+            r = classify_event(c.text, events[er.event], er, extra_env=REF_ENV, tol=c.info.get("tol", 1e-14))
             stats["executions"] += 1
             if r is None:
                 stats["agree"] += 1
@@ -274,6 +275,21 @@ def main(tier="quick"):
             q2 = f"ds.SelectMany(lambda e: e.{coll}('A')).Select(lambda j: ({call_text(n)} + j.{n}(1) * 0))"
             cases.append(Case(pid, backend, q2, md + (meth,), {"function": n, "context": "next-to-own-method-called"}))
             pid += 1
+    # ---- the function's result is an ARGUMENT of a plug-in call (a C++ function the query declares, the built-in DeltaR): the
+    # plug-in passes rewrite that call after the math names have been resolved, and must leave the math call what it is
+    for backend in backends:
+        md = tuple(qgen.method_metadata(qgen.ALPHA[backend]))
+        coll = qgen.ALPHA[backend].primary
+        half = {"metadata_type": "add_cpp_function", "name": "vmhalf", "include_files": [], "arguments": ["x"], "code": ["double result = x * 0.5;"], "return_type": "double"}
+        for n in names:
+            if n in NOT_CALLABLE or n in NOT_COMPARABLE:
+                continue
+            f = call_text(n)
+            for ctx, expr, emd, tol in (("arg-of-own-function", f"vmhalf({f})", (half,), 1e-14), ("arg-of-own-function-plus", f"(vmhalf({f} + 1) + {f})", (half,), 1e-14),
+                                        ("arg-of-builtin-plugin", f"DeltaR(0.5, {f}, 0.5, 0.0)", (), 1e-9), ("arg-of-builtin-plugin-first", f"DeltaR({f}, j.phi(), 0.25, 0.5)", (), 1e-9)):
+                q = f"ds.SelectMany(lambda e: e.{coll}('A')).Select(lambda j: {expr})"
+                cases.append(Case(pid, backend, q, md + emd, {"function": n, "context": ctx, "tol": tol}))
+                pid += 1
     res = execute(cases, events, chunk_size=40, post=post, keep_files=True)
     # header check needs the files: do it through a second cheap translation pass in-process (one per function)
     from mc.core.pipeline import translate_case
